@@ -552,24 +552,18 @@ func d4(c *Ctx, isSeq bool, m mxj.Map, ms mxj.MapSeq, prefix, indent string, out
 			return v
 		}
 		c.C["probe.d4_checked"]++
-		var offered []byte
-		for _, o := range w.Offered {
-			offered = append(offered, o...)
-		}
-		// the bytes offered up to (and including) the failing call must be the reference bytes, exactly once
+		// judged on what the sink ACCEPTED: exactly the reference bytes when nothing went wrong;
+		// with a short-writing or failing sink a prefix of them (a writer that stops) or all of
+		// them (a writer that correctly retries the rest) - never anything else, never a byte twice
 		if !w.Failed {
-			if !bytes.Equal(offered, ref.out) {
-				return &Violation{"C16.d4-writer/" + f.name, fmt.Sprintf("%s wrote %q but %s returns %q", f.name, clip(string(offered), 300), f.ref, clip(string(ref.out), 300))}
+			if !bytes.Equal(w.Got, ref.out) {
+				return &Violation{"C16.d4-writer/" + f.name, fmt.Sprintf("%s wrote %q but %s returns %q", f.name, clip(string(w.Got), 300), f.ref, clip(string(ref.out), 300))}
 			}
 			if err != nil {
 				return &Violation{"C16.d4-writer-error/" + f.name, fmt.Sprintf("%s returned %v although the sink accepted everything", f.name, err)}
 			}
-		} else {
-			if !bytes.HasPrefix(ref.out, offered) && !bytes.Equal(offered, ref.out) {
-				return &Violation{"C16.d4-writer/" + f.name, fmt.Sprintf("%s offered %q to a failing sink; not a prefix of %q", f.name, clip(string(offered), 300), clip(string(ref.out), 300))}
-			}
-			calls := w.Calls
-			_ = calls
+		} else if !bytes.HasPrefix(ref.out, w.Got) {
+			return &Violation{"C16.d4-writer/" + f.name, fmt.Sprintf("%s made a short-writing/failing sink accept %q; not a prefix of %q", f.name, clip(string(w.Got), 300), clip(string(ref.out), 300))}
 		}
 		if hasRaw && !bytes.Equal(raw, ref.out) {
 			return &Violation{"C16.d4-raw/" + f.name, fmt.Sprintf("%s returned %q but %s returns %q", f.name, clip(string(raw), 300), f.ref, clip(string(ref.out), 300))}
